@@ -136,6 +136,15 @@ def rule_poisson(ck):
     _public(ck, 'csep.core.poisson_evaluations.number_test', PK, 'C07-D1')
 
 
+def _pair_of(e, kernel):
+    """the pair returned by `kernel`, in its order: the call itself, or the display of its components 0 and 1"""
+    if isinstance(e, ast.Call) and call_name(e) == kernel:
+        return True
+    return isinstance(e, ast.Tuple) and len(e.elts) == 2 and all(
+        is_marker(x, '__item__') and const_value(x.args[1]) == i and isinstance(x.args[0], ast.Call)
+        and call_name(x.args[0]) == kernel for i, x in enumerate(e.elts))
+
+
 def _public(ck, qual, kernel, pre):
     P = ck.prog
     g = P.func(qual)
@@ -179,9 +188,7 @@ def _public(ck, qual, kernel, pre):
             o.fail('the result carries no quantile')
             continue
         e = q[0]
-        good = isinstance(e, ast.Tuple) and len(e.elts) == 2 and all(
-            is_marker(x, '__item__') and const_value(x.args[1]) == i and isinstance(x.args[0], ast.Call)
-            and call_name(x.args[0]) == kernel for i, x in enumerate(e.elts))
+        good = _pair_of(e, kernel)
         (o.ok('(delta1, delta2) from the kernel, in order') if good else
          o.fail('quantile is `%s`: it must be the kernel\'s (delta1, delta2) in that order' % u(q[1])[:80]))
         os_ = flds.get('observed_statistic')
@@ -290,9 +297,7 @@ def rule_catalog(ck):
             o.fail('no quantile in result')
             continue
         e = q[0]
-        good = isinstance(e, ast.Tuple) and len(e.elts) == 2 and all(
-            is_marker(x, '__item__') and const_value(x.args[1]) == i and isinstance(x.args[0], ast.Call)
-            and call_name(x.args[0]) == GQ for i, x in enumerate(e.elts))
+        good = _pair_of(e, GQ)
         (o.ok('(delta_1, delta_2) in order') if good else o.fail('quantile is `%s`, expected get_quantiles\' (delta_1, delta_2) in order' % u(q[1])))
 
 
